@@ -54,7 +54,7 @@ def templates():
     return {"lin": (2, lin, L1), "logistic": (1, logistic, L2), "pend": (2, pend, L1), "vdp": (2, vdp, L1), "rat": (2, rat, L2)}
 
 
-def gen_problem(rng, dae=False):
+def gen_problem(rng, dae=False, bsp=False):
     name = rng.choice(sorted(templates()))
     nx = templates()[name][0]
     N = rng.randint(1, 3)
@@ -63,6 +63,11 @@ def gen_problem(rng, dae=False):
           "us": [round(rng.uniform(-1, 1), 3) for _ in range(N)], "p": round(rng.uniform(-1, 1), 3),
           "t0": round(rng.uniform(-1, 1), 2), "T": round(rng.uniform(0.5, 1.5), 2), "N": N,
           "grid": rng.choice(["uniform", "uniform", "geometric"]), "dae": bool(dae)}
+    if bsp:
+        # a grid='bspline' parameter of order d forces the first state and enters the integrand (a polynomial inside
+        # every control interval: collocation keeps its order; shooting holds signals constant over an interval by design)
+        d = rng.randint(1, 3)
+        pr["bsp"] = {"order": d, "coef": [round(rng.uniform(-1, 1), 3) for _ in range(N + d)]}
     return pr
 
 
@@ -88,10 +93,20 @@ def reference(pr):
     y = np.array(list(pr["x0"]) + [0.0])
     c, p = pr["c"], pr["p"]
 
+    sig = None
+    if pr.get("bsp"):
+        from scipy.interpolate import BSpline
+        d_ = pr["bsp"]["order"]
+        sig = BSpline(np.concatenate([[ts[0]] * d_, ts, [ts[-1]] * d_]), np.array(pr["bsp"]["coef"]), d_, extrapolate=True)
+
     def rhs(t, y, u):
         x = y[:nx]
         fx = list(f(np, t, x, u, p, c))
         Lx = L(np, t, x, u, p, c)
+        if sig is not None:
+            sv = float(sig(t))
+            fx[0] = fx[0] + 0.5 * sv * (1 + 0.3 * x[0])
+            Lx = Lx + sv * x[0]
         if pr["dae"]:
             z = zfun(np, t, x, u, p, c)
             fx[0] = fx[0] + 0.5 * z
@@ -118,6 +133,11 @@ def build(pr, rockit, method, control_as_parameter=True):
         ocp.add_alg((2 + xs[0] * xs[0]) * z - (xs[0] + u + ca.cos(ocp.t)))
         fx[0] = fx[0] + 0.5 * z
         Lx = Lx + z * z
+    if pr.get("bsp"):
+        sg = ocp.parameter(grid="bspline", order=pr["bsp"]["order"])
+        ocp.set_value(sg, ca.DM(pr["bsp"]["coef"]).T)
+        fx[0] = fx[0] + 0.5 * sg * (1 + 0.3 * xs[0])
+        Lx = Lx + sg * xs[0]
     ocp.set_der(x, ca.vertcat(*fx))
     I = ocp.integral(Lx)
     ocp.set_value(p, pr["p"])
@@ -285,6 +305,9 @@ def judge_one(pr, spec, r):
 
 
 def specs_for(pr):
+    if pr.get("bsp"):
+        return [{"kind": "DC", "degree": 2, "scheme": "radau"}, {"kind": "DC", "degree": 2, "scheme": "legendre"},
+                {"kind": "DC", "degree": 3, "scheme": "radau"}]
     if pr["dae"]:
         return [{"kind": "DC", "degree": 2, "scheme": "radau"}, {"kind": "DC", "degree": 2, "scheme": "legendre"},
                 {"kind": "DC", "degree": 3, "scheme": "radau"}, {"kind": "MS", "intg": "idas"}, {"kind": "SS", "intg": "collocation"},
@@ -323,7 +346,7 @@ def gen_items(seed, n):
     rng = random.Random(seed * 1000003 + 303)
     items = []
     for i in range(n):
-        pr = gen_problem(rng, dae=(i % 4 == 3))
+        pr = gen_problem(rng, dae=(i % 4 == 3), bsp=(i % 4 == 1))
         for spec in specs_for(pr):
             items.append((pr, spec))
     return items
